@@ -49,7 +49,10 @@ steady_clock::time_point steady_clock::now() noexcept { return time_point(durati
 }  // namespace std
 
 static mc::Result R;
-static const char* ARENA = "8/8/8/3k4/8/3K4/3P4/8 w - - 0 1";
+static const char* ARENAS[] = {"8/8/8/3k4/8/3K4/3P4/8 w - - 0 1",
+                               // many mutual captures: large quiescence trees under every node
+                               "k7/8/8/8/3r1r2/2r3r1/1r1R1R1r/K2R1R2 w - - 0 1"};
+static const char* ARENA = ARENAS[0];
 
 static const char* PNAME[] = {"SEARCH_STOP", "GO_ENTER", "GO_INIT_DONE", "GO_RESET_DONE", "GO_BESTMOVE", "ITER_START", "NODE", "QNODE",
                               "UCI_LINE", "UCI_GO_SPAWNED", "THREAD_START", "THREAD_END", "FLAG_LOAD", "FLAG_STORE"};
@@ -86,6 +89,17 @@ static void hook(int point, void*, const void* a, const void*)
 }
 
 enum WaitResult { PARKED, FINISHED, TIMEOUT };
+// bounded wait on the REAL clock (system_clock is not interposed): used to notice that a thread is
+// blocked on something the other, parked thread holds
+static WaitResult wait_parked_grace(int role, int ms)
+{
+    std::unique_lock<std::mutex> lk(g_m);
+    bool ok = g_cv.wait_until(lk, std::chrono::system_clock::now() + std::chrono::milliseconds(ms),
+                              [&] { return g_th[role].parked || g_th[role].finished; });
+    if (!ok) return TIMEOUT;
+    return g_th[role].finished ? FINISHED : PARKED;
+}
+
 static WaitResult wait_parked(int role)
 {
     // no timed wait here: std::condition_variable::wait_for would consult the (frozen) interposed
@@ -127,7 +141,7 @@ static WaitResult step(int role)
         g_th[2].finished = true;
         return FINISHED;
     }
-    return wait_parked(role);
+    return wait_parked_grace(role, 1500);
 }
 
 struct ChildResult
@@ -181,7 +195,7 @@ static void child_main(Uci& uci, const std::vector<std::string>& script, int a, 
         WaitResult w = step(2);
         if (w == TIMEOUT)
         {
-            fail("blocked:search_thread");
+            fail("deadlock:search_thread_blocked_forever");
             return false;
         }
         if (!g_th[2].finished && g_th[2].point == verif::GO_BESTMOVE) best_seen = true;
@@ -203,7 +217,26 @@ static void child_main(Uci& uci, const std::vector<std::string>& script, int a, 
         bool in_stop_cmd = false;
         while (verdict == "ok")
         {
-            WaitResult wu = wait_parked(1);
+            WaitResult wu = wait_parked_grace(1, 1500);
+            if (wu == TIMEOUT)
+            {
+                // the reader thread is blocked (e.g. on the output lock) while the search thread is parked:
+                // not a deadlock yet - let the search thread run on and see whether the reader gets free
+                bool freed = false;
+                for (int i = 0; i < 100000 && !freed; ++i)
+                {
+                    if (!s_step()) break;
+                    std::unique_lock<std::mutex> lk(g_m);
+                    freed = g_th[1].parked || g_th[1].finished;
+                }
+                if (!freed && wait_parked_grace(1, 1500) == TIMEOUT)
+                {
+                    fail("deadlock:reader_thread_blocked_forever");
+                    break;
+                }
+                R.count("schedules_where_reader_waited_for_search_thread");
+                continue;
+            }
             if (wu == FINISHED) break;
             bool at_line = g_th[1].point == verif::UCI_LINE;
             if (at_line && in_stop_cmd)
@@ -222,6 +255,7 @@ static void child_main(Uci& uci, const std::vector<std::string>& script, int a, 
             }
             if (at_line && g_u_line == "stop") in_stop_cmd = true;
             WaitResult w = step(1);
+            if (w == TIMEOUT) continue;   // handled at the top of the loop
             if (w == FINISHED)
             {
                 if (in_stop_cmd)
@@ -333,7 +367,7 @@ static void judge(const std::string& sname, int a, int b, int bound, const Child
     ref::Pos root;
     ref::parse_fen(ARENA, root);
     auto w = [&]() {
-        return mc::JObj().s("script", sname).n("a", a).n("b", b).n("bound", bound).s("verdict", r.verdict).n("search_steps_after_stop", r.s_steps_after_stop)
+        return mc::JObj().s("script", sname).n("arena", ARENA == ARENAS[1] ? 2 : 1).n("a", a).n("b", b).n("bound", bound).s("verdict", r.verdict).n("search_steps_after_stop", r.s_steps_after_stop)
             .n("search_steps_total", r.s_total).s("output", r.output.size() > 600 ? r.output.substr(r.output.size() - 600) : r.output);
     };
     int best = 0, ready = 0;
@@ -354,7 +388,7 @@ static void judge(const std::string& sname, int a, int b, int bound, const Child
     std::string where = a == 0 ? "before_thread_runs" : a <= 3 ? "during_go_startup" : "during_search";
     if (r.verdict == "stop_lost_or_not_prompt")
         R.violation("C06:stop_lost_or_not_prompt:" + where, w());
-    else if (r.verdict.rfind("blocked", 0) == 0)
+    else if (r.verdict.rfind("blocked", 0) == 0 || r.verdict.rfind("deadlock", 0) == 0)
         R.violation("C06:" + r.verdict, w());
     else if (r.verdict != "ok")
         R.violation("C06:harness:" + r.verdict, w());
@@ -388,6 +422,7 @@ int main(int argc, char** argv)
         else if (a == "--bound") bound = atoi(argv[++i]);
         else if (a == "--one") one = argv[++i];
         else if (a == "--trace") g_want_trace = true;
+        else if (a == "--arena") ARENA = ARENAS[atoi(argv[++i]) == 2 ? 1 : 0];
         else if (a == "--deadline") R.deadline_s = atof(argv[++i]);
         else if (a == "--tier") ++i;
         else if (a == "--shard")
@@ -414,7 +449,7 @@ int main(int argc, char** argv)
     if (script.empty()) return 2;
     R.keep_per_class = 3;
     mc::Subspace sub;
-    sub.name = "schedules " + sname;
+    sub.name = "schedules " + sname + (ARENA == ARENAS[1] ? " (capture arena)" : " (KPK arena)");
     sub.bound = "every placement (a <= b <= " + std::to_string(n0) + ") of the reader thread's two commands among the search thread's first " + std::to_string(n0) +
                 " hook steps; promptness bound " + std::to_string(bound) + " search-thread steps";
     if (!one.empty())
